@@ -13,8 +13,8 @@ PROP = "C18"
 EXTRA_TARGETS = ["Auto/Corr.vo"]
 META = {
  "engine": "S-scheduler-automation",
- "text": "Coq theorems (Props/C18.v, closed under the global context) about an executable model over exact rationals of isobar/timelines/automation.py and lfo.py: for every duration N >= 1 ticks and envelope length 0 <= E <= N the envelope weights (linspace ramps written by the two slice assignments in the code's order, divided by their mean) are >= 0 and sum to N; after move_to / move_by with any duration >= 0 and envelope fraction in [0,1] the value after max(ceil(round8(duration*tpb)),1) ticks is exactly the target, every step in between moves toward it and nothing moves afterwards; whole-tick durations give exactly that many ticks despite float error; the reported value is in [lo,hi] (clip) / [lo,hi) (wrap), congruent modulo the width and unchanged when inside; every change calls every binding exactly once with the new reported value; a sine LFO stays in [min,max], repeats after ticks_per_beat/frequency ticks when that is whole and PLFO yields exactly lfo.value (sin enters as a Section variable with -1 <= sin2pi x <= 1 and sin2pi (x+1) == sin2pi x). The model is tied to the repository on every run: generated scenarios (move_to / move_by / jump_to / bind_to, overlapping and interrupted moves, clip / wrap / no range, 0-3 bindings of both kinds, ticks_per_beat 10/24/96/480, durations 0 .. 16 beats whole and fractional, envelope fractions 0 .. 1, malformed calls) are executed on a manually ticked Timeline and compared inside coqc with the model after every operation and tick (values to 1e-9, change / call pattern and rejected calls exactly); LFOs are compared with the model evaluated on a table of math.sin values and read through PLFO from scheduled tracks. An independent Fraction oracle judges arrival tick, target, monotonicity, range, calls, LFO range / period / pattern read on the implementation's trace alone.",
- "note": "Trusted: Coq kernel + VM; the Python harness and driver; libm's sin (math.sin values enter the model as a table; the theorems assume only boundedness and periodicity of sin2pi as Section hypotheses); IEEE double arithmetic of numpy/CPython is validated against exact rationals to 1e-9, not modelled, so 'exactly the target' is exact in the model and 1e-9 on the implementation. int(envelope * ticks) and round(x, 8) are modelled on exact rationals; cases where the float product and the exact product fall on different sides of an integer / rounding tie are discarded (counted). Not covered: bounce_to, curve='exponential', ease, boundaries='fold' (unimplemented in isobar), LFO.update/pause, value_changed_callbacks (never invoked by isobar).",
+ "text": "Coq theorems (Props/C18.v, closed under the global context) about an executable model over exact rationals of isobar/timelines/automation.py and lfo.py: for every duration N >= 1 ticks and envelope length 0 <= E <= N the envelope weights (linspace ramps written by the two slice assignments in the code's order, divided by their mean) are >= 0 and sum to N; after move_to / move_by with any duration >= 0 and envelope fraction in [0,1] the value after max(ceil(round8(duration*tpb)),1) ticks is exactly the target, every step in between moves toward it and nothing moves afterwards; whole-tick durations give exactly that many ticks despite float error; the reported value is in [lo,hi] (clip) / [lo,hi) (wrap), congruent modulo the width and unchanged when inside; every change calls every binding exactly once with the new reported value; a sine LFO stays in [min,max], repeats after ticks_per_beat/frequency ticks when that is whole and PLFO yields exactly lfo.value (sin enters as a Section variable with -1 <= sin2pi x <= 1 and sin2pi (x+1) == sin2pi x). The model is tied to the repository on every run: generated scenarios (move_to / move_by / jump_to / bind_to, overlapping and interrupted moves, clip / wrap / no range, 0-3 bindings of both kinds, ticks_per_beat 10/24/96/480, durations 0 .. 16 beats whole and fractional, envelope fractions 0 .. 1, malformed calls) are executed on a manually ticked Timeline and compared inside coqc with the model after every operation and tick (values to 1e-9, change / call pattern and rejected calls exactly); LFOs are compared with the model evaluated on a table of math.sin values and read through PLFO from scheduled tracks. LFOs and automations are also re-configured at random ticks (attribute assignment, LFO.update, Timeline.lfo under the name of an existing LFO, LFO.reset; range / boundaries / default_duration of an automation right after a call, mid-move and after arrival): the model carries the parameters in its state (theorems C18_lfo_reconfig_range / _config / _periodic, C18_timeline_lfo_in_place, C18_reconfig_auto) and the oracle judges every tick against the configuration given last. An independent Fraction oracle judges arrival tick, target, monotonicity, range, calls, LFO range / period / pattern read on the implementation's trace alone.",
+ "note": "Trusted: Coq kernel + VM; the Python harness and driver; libm's sin (math.sin values enter the model as a table; the theorems assume only boundedness and periodicity of sin2pi as Section hypotheses); IEEE double arithmetic of numpy/CPython is validated against exact rationals to 1e-9, not modelled, so 'exactly the target' is exact in the model and 1e-9 on the implementation. int(envelope * ticks) and round(x, 8) are modelled on exact rationals; cases where the float product and the exact product fall on different sides of an integer / rounding tie are discarded (counted). Re-configuration after construction (lfo.min/max/frequency assigned, LFO.update, Timeline.lfo(name=existing), LFO.reset; automation.range / boundaries / default_duration re-assigned, also mid-move) is modelled, proved (in range of the CURRENT bounds after any history, period of the CURRENT frequency, moves arrive as they would have) and compared on every run; the value shown between a re-configuration and the next tick and binding calls at a range assignment are compared with the model only. Not covered: bounce_to, curve='exponential', ease, boundaries='fold' (unimplemented in isobar), LFO.pause/unpause/stop, value_changed_callbacks (never invoked by isobar).",
 }
 
 HEADER = """From Isobar Require Import Base.Prelude Auto.Automation Auto.Lfo Auto.Corr.
@@ -54,6 +54,12 @@ def op_term(op):
         return "(Some (OJumpTo %s))" % qlit(op[1])
     if k == "bind":
         return "(Some (OBind %d%%Z))" % op[-1]
+    if k == "set_range":
+        return "(Some (OSetRange %s))" % ("None" if op[1] is None else "(Some (%s, %s))" % (qlit(op[1][0]), qlit(op[1][1])))
+    if k == "set_boundaries":
+        return "(Some (OSetBound %s))" % ("Wrap" if op[1] == "wrap" else "Clip")
+    if k == "set_default":
+        return "(Some (OSetDefault %s))" % qlit(op[1])
     raise CheckError("op %r" % (op,))
 
 
@@ -127,6 +133,8 @@ def vouchable(sc):
     dd = sc.get("default_duration")
     for sg in sc["segs"]:
         op = sg.get("op")
+        if op is not None and op[0] == "set_default":
+            dd = op[1]
         if op is None or op[0] not in ("move_to", "move_by"):
             continue
         d = op[2] if op[2] is not None else (0.0 if dd is None else dd)
@@ -170,16 +178,17 @@ def oracle_auto(sc, info, res):
     """Judges the implementation's trace alone.  Returns list of (kind, detail, tick)."""
     bad = []
     tpb = sc["tpb"]
-    rng = sc.get("range")
-    wrapm = rng is not None and sc.get("boundaries") == "wrap"
+    # the range and boundary mode declared LAST (they may be re-assigned after construction)
+    cfg = {"range": sc.get("range"), "boundaries": sc.get("boundaries")}
     nbind = 0
 
     def in_range(x, where):
+        rng = cfg["range"]
         if rng is None:
             return
         lo, hi = rng
         if not (lo - 1e-12 * max(1, abs(lo)) <= x <= hi + 1e-12 * max(1, abs(hi))):
-            bad.append(("out-of-range", "value %r outside range %r (%s) %s" % (x, rng, sc.get("boundaries"), where), None))
+            bad.append(("out-of-range", "value %r outside range %r (%s) %s" % (x, rng, cfg["boundaries"], where), None))
 
     # exact bookkeeping from the property text
     init = info["initial_exact"]
@@ -188,8 +197,8 @@ def oracle_auto(sc, info, res):
     arrive = 0             # tick count by which every active move has arrived
     direction = 0          # +1 / -1 / 0 known direction of all active moves, None = mixed or unknown
     t = 0                  # ticks so far
-    if not approx_report(sc, res["init"], init):
-        bad.append(("initial-value", "value after creation is %r, expected %r" % (res["init"], float(report_exact(sc, init))), 0))
+    if not approx_report(cfg, res["init"], init):
+        bad.append(("initial-value", "value after creation is %r, expected %r" % (res["init"], float(report_exact(cfg, init))), 0))
     in_range(res["init"], "after creation")
     prev = res["init"]
     if not res.get("registered"):
@@ -236,6 +245,10 @@ def oracle_auto(sc, info, res):
                     direction = None
             elif op[0] == "bind":
                 nbind += 1
+            elif op[0] == "set_range":
+                cfg["range"] = op[1]
+            elif op[0] == "set_boundaries":
+                cfg["boundaries"] = op[1]
         # observation right after the operation
         x = r["value"]
         in_range(x, "after %s" % (op,))
@@ -245,11 +258,15 @@ def oracle_auto(sc, info, res):
             if r["calls"]:
                 bad.append(("binding-call", "%s called bindings %r" % (op[0], r["calls"]), t))
         if op is not None and op[0] == "jump_to":
-            if t >= arrive and cv is not None and not approx_report(sc, x, cv):
+            if t >= arrive and cv is not None and not approx_report(cfg, x, cv):
                 bad.append(("jump-value", "jump_to(%r) reports %r" % (op[1], x), t))
             ids = [c[0] for c in r["calls"]]
             if ids != list(range(nbind)) or not all(c[1] == x and c[2] for c in r["calls"]):
                 bad.append(("binding-call", "jump_to(%r): value %r, bindings received %r (expected one call each of %d bindings with the value)" % (op[1], x, r["calls"], nbind), t))
+        if op is not None and op[0] in ("set_range", "set_boundaries", "set_default") and valid:
+            # the reported value is the current value clipped / wrapped into the range declared now
+            if t >= arrive and cv is not None and not approx_report(cfg, x, cv):
+                bad.append(("reconfig-value", "after %r the settled value %r is reported as %r, expected %r" % (op, float(cv), x, float(report_exact(cfg, cv))), t))
         if op is not None and op[0] == "bind":
             if [c[0] for c in r["calls"]] != [nbind - 1] or r["calls"][0][1] != x or not r["calls"][0][2]:
                 bad.append(("binding-call", "bind_to: value %r, new binding received %r" % (x, r["calls"]), t))
@@ -262,11 +279,11 @@ def oracle_auto(sc, info, res):
             elif nbind and code == 0 and not approx(x, prev, 1e-12):
                 bad.append(("binding-missed", "tick %d: value changed %r -> %r but no binding was called" % (t, prev, x), t))
             if t >= arrive and target is not None:
-                if not approx_report(sc, x, target):
-                    bad.append(("not-on-target", "tick %d (move due by tick %d): value %r, target %r" % (t, arrive, x, float(report_exact(sc, target))), t))
+                if not approx_report(cfg, x, target):
+                    bad.append(("not-on-target", "tick %d (move due by tick %d): value %r, target %r" % (t, arrive, x, float(report_exact(cfg, target))), t))
             elif t < arrive or target is None:
                 pass
-            if direction is not None and not wrapm:
+            if direction is not None and not (cfg["range"] is not None and cfg["boundaries"] == "wrap"):
                 step = x - prev
                 tol = 1e-9 * max(1.0, abs(x))
                 if t <= arrive:
@@ -354,9 +371,12 @@ def make_case(tpb, segs_infos, rangecfg=None, initial=None, default_duration=Non
     else:
         ie = Fraction(initial)
     info = {"segs": [i for _, i in segs_infos], "initial_exact": ie}
+    dd = default_duration
     for sg, oi in zip(sc["segs"], info["segs"]):
+        if sg.get("op") is not None and sg["op"][0] == "set_default":
+            dd = sg["op"][1]
         if oi.get("D") is None and sg.get("op") is not None and sg["op"][0] in ("move_to", "move_by"):
-            oi["D"] = Fraction(0.0 if default_duration is None else default_duration)
+            oi["D"] = Fraction(0.0 if dd is None else dd)
     number_bind_ops(sc)
     return sc, info
 
@@ -515,6 +535,74 @@ def gen_random(run, n, long_cases):
     return cases
 
 
+def gen_reconfig(run, n):
+    """the automation is re-configured after construction: range / boundaries re-assigned while a move is running
+    (also right after the call, before any tick), after it has arrived, default_duration re-assigned before a move
+    that relies on it"""
+    rng = run.rng
+    cases = []
+    for ci in range(n):
+        tpb = rng.choice(TPBS)
+        rangecfg = None
+        if rng.random() < 0.8:
+            lo, hi = rng.choice(RANGES)
+            rangecfg = (lo, hi, rng.choice(["clip", "wrap"]))
+        initial = None if rng.random() < 0.25 else rand_value(rng, rangecfg)
+        default_duration = rng.choice([None, 0.0, float(Fraction(3, tpb)), 0.5])
+        cur_dd = default_duration
+        cur = rangecfg
+
+        def reconfig_segs(ticks):
+            nonlocal cur
+            out = []
+            r = rng.random()
+            if r < 0.6 or cur is None:
+                if rng.random() < 0.12:
+                    new = None
+                elif cur is not None and rng.random() < 0.4:
+                    lo, hi = cur[0], cur[1]     # a part of the present range, or a range next to it
+                    w = hi - lo
+                    new = rng.choice([(lo, lo + w / 2), (lo + w / 2, hi), (lo + w / 4, lo + w / 2), (hi, hi + w), (lo - w, lo), (lo - w, hi + w)])
+                else:
+                    new = rng.choice(RANGES)
+                out.append(["set_range", None if new is None else [new[0], new[1]]])
+                cur = None if new is None else (new[0], new[1], cur[2] if cur is not None else "clip")
+                run.dist("auto.reconfig.range.%s" % ("none" if new is None else "some"))
+            if r >= 0.6 or rng.random() < 0.3:
+                b = rng.choice(["clip", "wrap"])
+                out.append(["set_boundaries", b])
+                if cur is not None:
+                    cur = (cur[0], cur[1], b)
+            return [({"op": o, "ticks": ticks if i == len(out) - 1 else 0}, {}) for i, o in enumerate(out)]
+        segs = [bind_seg(rng) for _ in range(rng.choice([0, 1, 1, 2]))]
+        for oi in range(rng.randint(1, 4)):
+            kind = rng.choice(["move_to", "move_to", "move_by"])
+            D = rand_duration(rng, tpb)
+            e = rand_env(rng) if rng.random() < 0.9 else None
+            v = rand_value(rng, cur)
+            if kind == "move_by":
+                v = rng.choice([v, -v, v / 4, 1.0, -0.5])
+            mode = rng.random()
+            if mode < 0.2:
+                d = rng.choice([0.0, float(Fraction(2, tpb)), float(Fraction(5, tpb)), 0.25])
+                segs.append(({"op": ["set_default", d], "ticks": rng.choice([0, 0, 1])}, {}))
+                cur_dd = d
+                D = None
+                run.dist("auto.reconfig.default_duration")
+            n_t = max(math.ceil((Fraction(0.0 if cur_dd is None else cur_dd) if D is None else D) * tpb), 1)
+            if mode < 0.65:
+                k = rng.randint(0, n_t - 1)
+                segs.append(mk_move(kind, v, D, e, k))
+                segs += reconfig_segs(n_t - k + rng.choice([0, 1, 3]))
+                run.dist("auto.reconfig.%s" % ("right-after-the-call" if k == 0 else "mid-move"))
+            else:
+                segs.append(mk_move(kind, v, D, e, n_t + rng.choice([0, 1])))
+                segs += reconfig_segs(rng.choice([0, 1, 2]))
+                run.dist("auto.reconfig.after-arrival")
+        cases.append(make_case(tpb, segs, rangecfg, initial, default_duration, rng.choice([None, None, 1, 3]), tag="reconfig"))
+    return cases
+
+
 def gen_malformed(run):
     """calls outside the property's domain: the real code rejects some and accepts others; compared with the model only"""
     cases = []
@@ -649,7 +737,7 @@ def oracle_lfo_script(sc, res):
             flat.append(x)
             k = len(flat)
             in_range(x, "tick %d" % k, k)
-            if not (p1 == x and p2 == x and p3 == x and b == x):
+            if not (p1 == x and p2 == x and p3 == x and (b == x or not known)):
                 bad.append(("lfo-pattern", "tick %d: lfo.value %r, pattern reads %r %r, fresh pattern %r, bound attribute %r" % (k, x, p1, p2, p3, b), k))
     for i, (start, cfg, judged) in enumerate(stretches):
         end = stretches[i + 1][0] if i + 1 < len(stretches) else len(flat)
@@ -839,6 +927,12 @@ def snippet_auto(sc, upto_tick=None):
                 lines.append("a.%s(%s); print('%s ->', a.value)" % (op[0], ", ".join(args), op[0]))
             elif op[0] == "jump_to":
                 lines.append("a.jump_to(%r); print('jump_to ->', a.value)" % op[1])
+            elif op[0] == "set_range":
+                lines.append("a.range = %r; print('range re-assigned ->', a.value)" % (None if op[1] is None else tuple(op[1]),))
+            elif op[0] == "set_boundaries":
+                lines.append("a.boundaries = %r; print('boundaries re-assigned ->', a.value)" % op[1])
+            elif op[0] == "set_default":
+                lines.append("a.default_duration = %r" % op[1])
             elif op[0] == "bind":
                 if op[1] == "attr":
                     lines.append("a.bind_to(T(%d), 'level')" % op[-1])
@@ -890,13 +984,16 @@ def run_autos(run, cases):
         run.dist("auto.%s" % sc["tag"])
         run.dist("auto.tpb%d" % sc["tpb"])
         run.dist("auto.range.%s" % (sc["boundaries"] if sc["range"] else "none"))
+        cur_dd = sc.get("default_duration") or 0.0
         for sg in sc["segs"]:
             op = sg.get("op")
             if op is None:
                 continue
             run.dist("op.%s" % op[0])
+            if op[0] == "set_default":
+                cur_dd = op[1]
             if op[0] in ("move_to", "move_by"):
-                d = op[2] if op[2] is not None else (sc.get("default_duration") or 0.0)
+                d = op[2] if op[2] is not None else cur_dd
                 n = model_ticks(sc["tpb"], d)
                 run.dist("duration.%s" % ("zero" if n == 0 else "one-tick" if n == 1 else "negative" if (n or 0) < 0 else
                                           "short" if (n or 0) <= 32 else "long" if (n or 0) <= 1000 else "very-long"))
@@ -1050,6 +1147,7 @@ def check(run):
     quick = run.tier == "quick"
     cases = gen_grid(run) + gen_traps(run, 6 if quick else 40) + gen_malformed(run)
     cases += gen_random(run, 170 if quick else 4000, 5 if quick else 40)
+    cases += gen_reconfig(run, 60 if quick else 1200)
     for i in range(0, len(cases), 1500):
         run_autos(run, cases[i:i + 1500])
     run_lfos(run, gen_lfos(run, 40 if quick else 400))
@@ -1057,7 +1155,9 @@ def check(run):
     run.cov["rule"] = ("one case = one scenario on a fresh Timeline: an automation (range none/clip/wrap, initial, default_duration, 0-3 bindings) "
                        "driven by a sequence of move_to / move_by / jump_to / bind_to calls with ticks in between, or one LFO (frequency, range) "
                        "ticked for > 2 periods and read through PLFO from two scheduled tracks; every value after every operation and tick is "
-                       "compared with the Coq model. distinct by the full scenario; non-trivial = at least one tick was executed.")
+                       "compared with the Coq model; or one LFO / automation history with re-configurations (attribute assignment, update, Timeline.lfo(name=existing), "
+                       "reset; range / boundaries / default_duration) at random ticks, observed after every operation and tick. "
+                       "distinct by the full scenario; non-trivial = at least one tick was executed.")
 
 
 def replay(run, doc):
